@@ -1,5 +1,6 @@
 """C07 -- flagged scan lines are blanked in every product and only those."""
 import datetime
+import random
 
 import numpy as np
 
@@ -94,7 +95,8 @@ def run(res, tier, seed):
             elif pattern == "dropped":
                 numbers[rng.randrange(5, n - 5)] = 20000 if l1b.FMT[fmt]["res"] == "gac" else 65535
             sws = [rng.choice([0, 1]) for _ in range(n)]
-            lines = l1b.default_lines(fmt, n, start, counts=wb, qual=qs, switch=sws, numbers=numbers)
+            nz = rng.getrandbits(32)   # both files of the pair: the same random bytes in every record field the writer does not set
+            lines = l1b.default_lines(fmt, n, start, counts=wb, qual=qs, switch=sws, numbers=numbers, noise=random.Random(nz))
             # a few lines carry out-of-range latitudes (95 degrees) in all tie points: their coordinates are invalid (C06),
             # but that is not a quality flag -- channels and mask of such a line must not change
             oor_idx = rng.sample(range(n), 3) if pattern != "clean-drift" else []
@@ -105,7 +107,7 @@ def run(res, tier, seed):
             data = l1b.build_file(fmt, sc, start, lines)
             # twin file: all non-mask bits of every quality word cleared
             keep = sum(1 << b for b in MASKBITS[fam])
-            lines2 = l1b.default_lines(fmt, n, start, counts=wb, qual=[q & keep for q in qs], switch=sws, numbers=numbers)
+            lines2 = l1b.default_lines(fmt, n, start, counts=wb, qual=[q & keep for q in qs], switch=sws, numbers=numbers, noise=random.Random(nz))
             for i_ in oor_idx:
                 lines2[i_]["lats"] = [int(95 * sc_)] * 51
             data2 = l1b.build_file(fmt, sc, start, lines2)
